@@ -776,3 +776,152 @@ def run(ctx, rep):
     from . import hygiene as H
     for cq_ in (RS, TCP, UDP):
         H.private_state(ctx, rep, "R18.8", cq_)
+    _tcp_socket_model(ctx, rep)
+
+
+def _tcp_socket_model(ctx, rep):
+    """R18.9: TCPRegistryServer._recv / _send evaluated (sa/miniinterp.py) on model sockets, per behaviour of the accepted
+    client: a whole request, a silent client (time-out), a client that closes in the middle of a request (recv() returns b''
+    from then on), a client whose earlier request got no reply. _recv must come back (value or exception) after a bounded
+    number of steps, a socket is either tracked or closed - never both, never neither - and a finite timeout is set before the
+    first read."""
+    from .. import miniinterp as MI
+    rep.rule("R18.9", "TCP registry: _recv terminates for every client behaviour; an accepted socket is tracked or closed, never "
+                      "leaked; the reply closes and untracks it")
+    tcp = ctx.cls(TCP)
+    meths = {n: m.node for c in reversed(ctx.repo.mro(tcp)) for n, m in c.methods.items()}
+    if "_recv" not in tcp.methods or "_send" not in tcp.methods:
+        raise AnalysisError("TCPRegistryServer._recv/_send not found")
+    rep.analysed(tcp.methods["_recv"])
+    rep.analysed(tcp.methods["_send"])
+    D = b"WHOLE-REQUEST"
+
+    class _Sock:
+        mi_native = True
+
+        def __init__(self, script, addr=("10.9.9.9", 5555)):
+            self.script, self.addr = list(script), addr
+            self.closed, self.timeout, self.sent, self.reads = False, "unset", [], 0
+            self.timeout_at_first_read = None
+
+        def settimeout(self, t):
+            self.timeout = t
+
+        def getpeername(self):
+            return self.addr
+
+        def recv(self, n, *a):
+            if self.closed:
+                raise MI.Raised("OSError")
+            if self.reads == 0:
+                self.timeout_at_first_read = self.timeout
+            self.reads += 1
+            item = self.script.pop(0) if len(self.script) > 1 else self.script[0]
+            if item == "timeout":
+                raise MI.Raised("socket.timeout")
+            return item[:n]
+
+        def send(self, data, *a):
+            if self.closed:
+                raise MI.Raised("OSError")
+            self.sent.append(data)
+            return len(data)
+        sendall = send
+
+        def close(self):
+            self.closed = True
+
+        def shutdown(self, *a):
+            pass
+
+        def fileno(self):
+            return 9
+
+        def mi_enter(self):
+            return self
+
+        def mi_exit(self, *a):
+            self.closed = True
+            return False
+
+    class _Closing:
+        mi_native = True
+
+        def __init__(self, o):
+            self.o = o
+
+        def mi_enter(self):
+            return self.o
+
+        def mi_exit(self, *a):
+            self.o.close()
+            return False
+
+    class _NSx:
+        mi_native = True
+
+        def __init__(self, **kw):
+            self.__dict__.update(kw)
+
+    def brine_load(data):
+        if data != D:
+            raise MI.Raised("EOFError")
+        return ("RPYC", "QUERY", ("x",))
+    bad = []
+    rows = 0
+    try:
+        for label, script in (("a whole request", [D]), ("a silent client", ["timeout"]),
+                              ("a client that closes in the middle of its request", [D[:5], b""]),
+                              ("a client that sends in two segments and then waits", [D[:5], D[5:], "timeout"]),
+                              ("a client that connects and closes at once", [b""])):
+            rows += 1
+            sock2 = _Sock(script)
+            old = _Sock([b""], addr=("10.1.1.1", 1))
+            listener = _NSx(accept=lambda sock2=sock2: (sock2, sock2.addr), settimeout=lambda t: None, close=lambda: None,
+                            getsockname=lambda: ("0.0.0.0", 18811), fileno=lambda: 3)
+            state = {"sock": listener, "_connected_sockets": {old.addr: old}, "TIMEOUT": 3.0, "port": 18811,
+                     "logger": _NSx(**{k: (lambda *a, **kw: None) for k in ("debug", "info", "warning", "warn", "error", "exception")})}
+            for an_, av_ in tcp.attrs.items():
+                v_ = ctx.try_fold(av_, tcp.module)
+                if v_ is not None:
+                    state.setdefault(an_, v_)
+            extra = {"__calls__": {"brine.load": brine_load, "closing": _Closing, "contextlib.closing": _Closing},
+                     "__methods__": {k: v for k, v in meths.items() if k not in ("__init__",)}, "__max_iter__": 300,
+                     "__globals__": {"brine": _NSx(load=brine_load, dump=lambda o: b"ENC")}}
+            extra["__global_lookup__"] = K.module_function_lookup(ctx, tcp.module, extra, skip=("brine", "socket", "time", "sys"))
+            try:
+                got = MI.call_method(meths["_recv"], state, [], extra)
+                out = ("returns", got)
+            except MI.Raised as r_:
+                out = ("raises", r_.name)
+            tracked = [k for k, v in state["_connected_sockets"].items() if v is sock2]
+            if out == ("raises", "<nontermination>"):
+                bad.append("%s: _recv never comes back (it keeps reading a socket that has nothing more to deliver): the registry "
+                           "answers nobody from then on" % label)
+                continue
+            if not old.closed or old.addr in state["_connected_sockets"]:
+                bad.append("%s: the socket of an earlier request that got no reply is still open/tracked" % label)
+            if out[0] == "raises" and (not sock2.closed or tracked):
+                bad.append("%s: _recv raises %s and leaves the accepted socket %s" % (label, out[1], "tracked" if tracked else "open"))
+            if out[0] == "returns":
+                if sock2.closed == bool(tracked):
+                    bad.append("%s: after _recv the accepted socket is %s" % (label, "closed but still tracked" if tracked else
+                                                                          "neither tracked nor closed (leaked)"))
+                if script == [D] and not (isinstance(got, tuple) and len(got) == 2 and got[0] == D and got[1] == sock2.addr):
+                    bad.append("%s: _recv returns %r" % (label, got))
+            if sock2.reads and not (isinstance(sock2.timeout_at_first_read, (int, float)) and sock2.timeout_at_first_read > 0):
+                bad.append("%s: the accepted socket is read with timeout %r" % (label, sock2.timeout_at_first_read))
+            if out[0] == "returns" and tracked:
+                try:
+                    MI.call_method(meths["_send"], state, [b"REPLY", tracked[0]], extra)
+                except MI.Raised as r_:
+                    bad.append("%s: _send raises %s" % (label, r_.name))
+                if not sock2.closed or any(v is sock2 for v in state["_connected_sockets"].values()):
+                    bad.append("%s: after the reply the client's socket is still %s" % (label, "tracked" if not sock2.closed else "in the table"))
+                elif sock2.sent != [b"REPLY"]:
+                    bad.append("%s: the reply written is %r" % (label, sock2.sent))
+    except AnalysisError as e_:
+        rep.undecided("R18.9", "TCP registry socket model", str(e_))
+        return
+    rep.ob("R18.9", "TCPRegistryServer._recv/_send on model sockets: terminates, times out, tracks or closes, replies and releases", not bad,
+           "%d client behaviours" % rows if not bad else "; ".join(bad[:3]), tcp.methods["_recv"].loc, kind="model")
